@@ -412,36 +412,21 @@ for _idx in (0, 1, 3):
         contract("C21", f"Newton.solve[load step {_idx} of 3,continue={_cont}]/iter", samples=0, replayable=False, timeout=30)(_newton(_idx, _cont))
 
 
-@contract("C21", "Riks.solve/iter", samples=0, replayable=False, timeout=30)
-def c_riks(k):
-    """the internal Newton method of the arc-length solver: failure raises (assert)"""
-    if not k.sym:
-        raise K.Reject("symbolic only")
-    src = textwrap.dedent(inspect.getsource(st.Riks.solve))
-    tree = ast.parse(src)
-    calls = [n for n in ast.walk(tree) if isinstance(n, ast.Call) and getattr(n.func, "id", None) == "fsolve"]
-    k.prove("Riks.solve calls fsolve", len(calls) >= 1)
-    # every statement list that assigns `sol = fsolve(...)` checks sol.success by assert/raise before the result is stored
-    ok = True
-    for node in ast.walk(tree):
-        body = getattr(node, "body", None)
-        if not isinstance(body, list):
-            continue
-        for i, stmt in enumerate(body):
-            if isinstance(stmt, ast.Assign) and isinstance(stmt.value, ast.Call) and getattr(stmt.value.func, "id", None) == "fsolve":
-                guarded = False
-                for later in body[i + 1 :]:
-                    txt = ast.unparse(later)
-                    if isinstance(later, ast.Assert) and "success" in txt:
-                        guarded = True
-                        break
-                    if isinstance(later, ast.If) and "success" in ast.unparse(later.test) and any(isinstance(n, ast.Raise) for n in ast.walk(later)):
-                        guarded = True
-                        break
-                    if any(isinstance(n, ast.Call) and getattr(n.func, "attr", "") == "append" for n in ast.walk(later)):
-                        break  # result stored before the check
-                ok = ok and guarded
-    k.prove("every fsolve result in Riks.solve is checked (assert/raise on not success) before it is stored", ok)
+def _riks_semantic(first):
+    """the arc-length solver: two consecutive rounds of the real while loop with an opaque fsolve whose outcome is arbitrary
+    (shared with C23): a failed solve raises and nothing of it is stored.  (Replaces an earlier syntactic scan of the
+    source for `assert sol.success` - obligations about the shape of the source are false-alarm traps, DESIGN 8.1.)"""
+
+    def c(k):
+        from contracts import C23
+
+        return C23._riks_round(first)(k)
+
+    return c
+
+
+contract("C21", "Riks.solve/two-rounds[first]", samples=0, replayable=False, timeout=60, max_paths=200)(_riks_semantic(True))
+contract("C21", "Riks.solve/two-rounds[later]", samples=0, replayable=False, timeout=60, max_paths=200)(_riks_semantic(False))
 
 
 # --------------------------------------------------------------------------- wrappers of external integrators
